@@ -720,6 +720,11 @@ func (r *runner) diagnoseIndexError(q Query, ra hx.Result, driving []*F) string 
 			if l.Field == "j" && !underNot && len(l.Path) == 0 && l.Arr == "" && (!jFirst || (l.Cmp != "_eq" && l.Cmp != "_in")) {
 				rootCond = true
 			}
+			// ... also a condition on a path: the matcher built from the scalar operand is handed every
+			// JSON leaf of the entries the leading fields select, whatever its path and type
+			if l.Field == "j" && !underNot && !jFirst && l.Arr == "" && len(l.Path) > 0 {
+				rootCond = true
+			}
 		})
 		if rootCond {
 			return sigJSONRootScalarMatcher
@@ -1081,7 +1086,10 @@ func (r *runner) explainDuplicated(q Query, dup []map[string]any, driving []*F) 
 	if i, ok := r.chosenIndex(q); ok {
 		first := fdef(r.c.Idx[i].Fields[0].F).selName()
 		walkLeaves(q.Filter, false, func(l *F, underNot bool) {
-			if leafKey(l) == first && !underNot && !underMultiOr(q.Filter, l, false) {
+			// a negated operator (or an empty list) gives the index nothing to seek by: the index is
+			// still walked entry by entry in its own order
+			negated := l.Cmp == "_ne" || l.Cmp == "_nin" || l.Cmp == "_nlike" || l.Cmp == "_nilike" || (l.Cmp == "_in" && len(l.Vals) == 0)
+			if leafKey(l) == first && !underNot && !negated && !underMultiOr(q.Filter, l, false) {
 				firstFieldCondition = true
 			}
 		})
